@@ -913,4 +913,20 @@ theorem qnameLitBody_scalar : ∀ (t : Str), qnameLitBody (t.map Char.toNat) = j
           simp; omega
       simp [qnameLitBody, jsonBody, escapeCp, hns, Char.ofNat_toNat, qnameLitBody_scalar r]
 
+/-! ### when `render` does not refuse, no import shadows a name the source uses -/
+
+theorem importsOK_of_renders (W : World) (v : Val) (hwf : wf W v = true) (hok : valOK W v = true)
+    (hr : renders W v = true) : importsOK W v = true := by
+  simp only [importsOK, importsOKe, List.all_eq_true]
+  intro pc hpc t ht
+  have hg := refs_good W v hwf hok pc hpc
+  have hmem := refs_sub_types (render W v) pc hpc
+  simp only [renders, clashFree, List.all_eq_true] at hr
+  have h := hr t ht pc.2 hmem
+  rw [hg.1]
+  simp only [Bool.or_eq_true, bne_iff_ne, beq_iff_eq] at h ⊢
+  rcases h with h | h
+  · exact Or.inl (Or.inr h)
+  · exact Or.inr h
+
 end Xs.Code
